@@ -251,10 +251,10 @@ static const struct cscope quick_scopes[] = {
 static const struct cscope thorough_scopes[] = {
     { 5, 3, 0, 0, 8, 400000 },
     { 4, 3, 1, 0, 8, 400000 },
-    { 4, 3, 0, 1, 32, 400000 },     /* all pairs of strings of length 0..4 */
-    { 4, 2, 1, 1, 32, 400000 },
-    { 3, 3, 0, 2, 32, 400000 },     /* pairs of length 0..3, every op in every state */
-    { 3, 2, 1, 2, 32, 400000 },
+    { 4, 3, 0, 1, 8, 400000 },      /* all pairs of strings of length 0..4 */
+    { 4, 2, 1, 1, 8, 400000 },
+    { 3, 3, 0, 2, 16, 400000 },     /* pairs of length 0..3, every op in every state */
+    { 3, 2, 1, 2, 16, 400000 },
 };
 static const struct cscope *scopes;
 static int nscopes, nclosure;
@@ -262,14 +262,14 @@ static int nscopes, nclosure;
 /* generating subset: reaches every string (pair) of the scope, the fresh and the reserved-only flavour */
 static int gen_alphabet(const struct cscope *s, uint32_t *al)
 {
-    int n = 0, d, p, c;
+    int n = 0, d, c;
+    /* kept small: it is repeated in every slice.  Appending one character reaches every string */
     for (d = 0; d < (s->what ? 2 : 1); d++) {
-        for (c = 0; c < s->nchars; c++)
-            for (p = 0; p <= s->maxlen; p++) al[n++] = OP(K_INSERT_CH, d, p, 1, c);
+        for (c = 0; c < s->nchars; c++) al[n++] = OP(K_INSERT_CH, d, P_SIZE, 1, c);
         al[n++] = OP(K_CLEAR, d, 0, 0, 0);
         al[n++] = OP(K_RESIZE, d, 0, 0, 0);
         al[n++] = OP(K_RESERVE, d, 0, 2, 0);
-        if (s->grow) for (p = 1; p <= s->maxlen; p++) al[n++] = OP(K_RESIZE, d, 0, p, 0);
+        if (s->grow) al[n++] = OP(K_RESIZE, d, 0, C_AVAIL_P1, 0);
     }
     if (s->what) al[n++] = OP(K_SWAP, 0, 0, 0, 0);
     return n;
@@ -305,7 +305,6 @@ static int full_alphabet(const struct cscope *s, uint32_t *al)
                 if (p != 0 && p != P_SIZE_P1 && p != P_MAX && p != 2 && j >= 3) continue;
                 for (c = 0; c < s->nchars; c++) {
                     if (j >= 3 && c > 0) continue;
-                    if (p <= s->maxlen && growcodes[j] == 1) continue;     /* in the generating subset */
                     al[n++] = OP(K_INSERT_CH, d, p, growcodes[j], c);
                 }
             }
@@ -581,7 +580,7 @@ static double cpu_now(void)
     clock_gettime(CLOCK_PROCESS_CPUTIME_ID, &t);
     return (double)t.tv_sec + (double)t.tv_nsec * 1e-9;
 }
-static uint64_t nrandom(void) { return vrt_thorough ? 60000 : 10000; }
+static uint64_t nrandom(void) { return vrt_thorough ? 40000 : 10000; }
 static uint64_t ncases(void)
 {
     int k;
